@@ -133,7 +133,8 @@ def check_defaults(out, facts):
         ctx.env[d['params'][0]['v']] = ('self',)
         v, t = ev.ev(d['thir'], ctx)
         sv = strip(v)
-        ok = isinstance(sv, tuple) and sv[0] == 'field' and sv[3] == 'written' and strip(sv[1])[0] == 'sink'
+        # the counter is the tracker's only field, read by name or by destructuring (field index 0)
+        ok = isinstance(sv, tuple) and sv[0] == 'field' and (sv[3] == 'written' or sv[2] == 0) and strip(sv[1])[0] == 'sink'
         sink = strip(sv[1])[1] if ok else None
         evs = ctx.sinks.get(sink, []) if ok else []
         ok = ok and len(evs) == 1 and evs[0][0] == 'enc' and strip(evs[0][2]) == ('self',)
